@@ -474,4 +474,9 @@ func TestC02(t *testing.T) {
 			break
 		}
 	}
+	// syscall durability monitor: scripted histories in a child under strace
+	ns := r.N(2, 40)
+	for i := 0; i < ns; i++ {
+		c02Strace(r, i, r.SubRand("strace", i).Uint64())
+	}
 }
